@@ -85,9 +85,9 @@ PER_NOTE = {
     'C01': 'IEEE rounding of the tolerance band is not modelled (reals); container lengths > 3, depth > 3 outside; symbolic strings only via CrossHair (inconclusive unless confirmed)',
     'C02': 'text form of float leaves and JSON text only on solver-chosen witness models; scaled grid index box +-8 (symbolic part), IEEE kernels by the QF_FP lemmas of C03',
     'C03': 'QF_FP lemmas bounded to a 9/13 bit grid index and 7 catalogue scales, a timed-out lemma is inconclusive; units/fmtstr beyond catalogue literals not covered',
-    'C04': 'fixed catalogue module class instead of generated classes; sequential requests only (dispatcher lock not analysed)',
+    'C04': 'catalogue module class plus generated one-parameter classes (all flag combinations by selectors) instead of random classes; sequential requests only',
     'C05': 'thread schedules only within <= 2/3 pre-emptions at synchronisation points (locks, send, driver entry) for 2-3 threads',
-    'C06': 'catalogue node + four shipped configurations instead of generated configurations',
+    'C06': 'catalogue node, generated classes (access x export combinations by selectors) and four shipped configurations instead of random configurations',
     'C07': 'catalogue of request lines (selector) instead of a free byte grammar; asynchronous messages vs. the send lock under symbolic schedules of 2-3 threads (<= 2/3 pre-emptions)',
     'C08': 'thread schedules only within <= 2/3 pre-emptions at synchronisation points for 2-3 threads; three open known findings (late update after deactivate/*IDN?/disconnect)',
     'C09': 'quantifies over values inside a fixed catalogue of class hierarchies, not over programs',
